@@ -146,7 +146,7 @@ def from_phase_and_exponent(
     coefficient = 1j ** (2 * half_turns * exponent)
     coefficient = (
         complex(coefficient)
-        if isinstance(coefficient, sympy.Expr) and coefficient.is_complex
+        if isinstance(coefficient, sympy.Expr) and coefficient.is_complex and coefficient.is_number
         else coefficient
     )
     return GlobalPhaseGate(coefficient)
